@@ -385,7 +385,10 @@ func (env *CEnv) call(e *CExpr) SV {
 		var flat []*Term
 		for i, a := range args {
 			if isSeqType(sf.Params[i].Type) {
-				flat = append(flat, a.Arr, a.Off, a.Len)
+				flat = append(flat, a.Arr, a.Off)
+				if sf.UsesLen[i] {
+					flat = append(flat, a.Len)
+				}
 			} else {
 				if a.T == nil {
 					env.errf("spec %s: bad argument %d", sf.Name, i)
@@ -424,13 +427,19 @@ func (x *Exec) evalSpecBody(sf *SpecFunc, args []SV, qn *int) SV {
 	return v
 }
 
-func (x *Exec) paramSVsFromFlat(params []ParamDecl, flat []*Term) []SV {
+func (x *Exec) paramSVsFromFlat(params []ParamDecl, flat []*Term, usesLen []bool) []SV {
 	var out []SV
 	i := 0
-	for _, p := range params {
+	for pi, p := range params {
 		if isSeqType(p.Type) {
-			out = append(out, SV{K: KSeq, Arr: flat[i], Off: flat[i+1], Len: flat[i+2], Cap: flat[i+2]})
-			i += 3
+			if usesLen == nil || usesLen[pi] {
+				out = append(out, SV{K: KSeq, Arr: flat[i], Off: flat[i+1], Len: flat[i+2], Cap: flat[i+2]})
+				i += 3
+			} else {
+				// the body never looks at the length
+				out = append(out, SV{K: KSeq, Arr: flat[i], Off: flat[i+1], Len: App("nolen", SInt), Cap: App("nolen", SInt)})
+				i += 2
+			}
 		} else if p.Type == "bool" {
 			out = append(out, boolSV(flat[i]))
 			i++
@@ -444,7 +453,7 @@ func (x *Exec) paramSVsFromFlat(params []ParamDecl, flat []*Term) []SV {
 
 // specDefInstance: f(args) = body[args]
 func (x *Exec) specDefInstance(sf *SpecFunc, app *Term, qn *int) *Term {
-	args := x.paramSVsFromFlat(sf.Params, app.Args)
+	args := x.paramSVsFromFlat(sf.Params, app.Args, sf.UsesLen)
 	body := x.evalSpecBody(sf, args, qn)
 	return Eq(app, body.T)
 }
@@ -577,7 +586,7 @@ func (x *Exec) triggerInstance(lm *Lemma, app *Term, qn *int) *Term {
 	if sf == nil || len(tr.Args) != len(sf.Params) {
 		return nil
 	}
-	formal := x.paramSVsFromFlat(sf.Params, app.Args)
+	formal := x.paramSVsFromFlat(sf.Params, app.Args, sf.UsesLen)
 	bind := map[string]SV{}
 	for i, a := range tr.Args {
 		if a.Kind != "id" {
